@@ -5,6 +5,7 @@ package rec
 import (
 	"bufio"
 	"encoding/json"
+	"fmt"
 	"io"
 	"sync"
 
@@ -122,6 +123,10 @@ type Script struct {
 	Panic map[string]any          // value to panic with
 	Nest  map[string][]NestedMut  // mutations a handler issues
 	Stall map[string]chan struct{} // handler blocks on the channel
+	// AllStalls keeps every stall channel (entries of Stall are removed when fired)
+	AllStalls []chan struct{}
+	// Blocking are the channels handlers are currently blocked on
+	Blocking []chan struct{}
 }
 
 type NestedMut struct {
@@ -144,6 +149,8 @@ type Recorder struct {
 	script *Script
 	// NestedRes collects the results of nested mutations of the current call
 	NestedRes []string
+	// FiredPanics are the messages of the panics raised during the current call
+	FiredPanics []string
 	// OnHandler, if set, is called inside every handler body
 	OnHandler func(b int, h HName, e *am.Event)
 }
@@ -160,6 +167,7 @@ func (r *Recorder) SetScript(s *Script) {
 	}
 	r.script = s
 	r.NestedRes = nil
+	r.FiredPanics = nil
 }
 
 func (r *Recorder) Add(line any) {
@@ -266,6 +274,14 @@ func (r *Recorder) onHandler(b int, h HName, e *am.Event) (ret bool) {
 	pv, doPanic := sc.Panic[key]
 	nest := sc.Nest[key]
 	stall := sc.Stall[key]
+	// faults are one-shot
+	if doPanic {
+		delete(sc.Panic, key)
+	}
+	if stall != nil {
+		delete(sc.Stall, key)
+		sc.Blocking = append(sc.Blocking, stall)
+	}
 	call := HCall{B: b, H: h, See: see}
 	if r.cur != nil {
 		r.cur.Hlog = append(r.cur.Hlog, call)
@@ -299,6 +315,9 @@ func (r *Recorder) onHandler(b int, h HName, e *am.Event) (ret bool) {
 		<-stall
 	}
 	if doPanic {
+		r.mu.Lock()
+		r.FiredPanics = append(r.FiredPanics, fmt.Sprint(pv))
+		r.mu.Unlock()
 		panic(pv)
 	}
 	return !veto
@@ -312,6 +331,34 @@ func ResStr(res am.Result) string {
 		return "canceled"
 	}
 	return "queued"
+}
+
+// ReleaseBlocked releases the handlers that are blocked right now (their
+// timeout has been reported).
+func (r *Recorder) ReleaseBlocked() {
+	r.mu.Lock()
+	defer r.mu.Unlock()
+	for _, ch := range r.script.Blocking {
+		select {
+		case <-ch:
+		default:
+			close(ch)
+		}
+	}
+	r.script.Blocking = nil
+}
+
+// ReleaseStalls closes every stall channel of the current script.
+func (r *Recorder) ReleaseStalls() {
+	r.mu.Lock()
+	defer r.mu.Unlock()
+	for _, ch := range r.script.AllStalls {
+		select {
+		case <-ch:
+		default:
+			close(ch)
+		}
+	}
 }
 
 // Binding describes one handler binding: which handler names it owns.
